@@ -298,6 +298,36 @@ theorem C15_queued_decision (decs : List Dec) (kind : MsgKind) (p : Payload) (st
   · intro hh
     exact ⟨.nbirth 0 st.bdSeq, by simp [hh], rfl⟩
 
+/-- **A rebirth command queued behind a parked node birth** (the node births are numbered: a
+device acts on a birth notification only while the node birth it belongs to is the current
+one). When the client accepts the parked NBIRTH and the one queued command is honoured in the
+state in which the node task resumes, the step's effects are the delivery of the command
+followed by exactly one birth sequence — NBIRTH seq 0, unchanged bdSeq, one DBIRTH per enabled
+device numbered 1, 2, … — the notification of the superseded first birth causes no DBIRTH. -/
+theorem C15_queued_rebirth_birth_sequence (decs : List Dec) (st : St) (pk : Parked) (kind : MsgKind)
+    (p : Payload) (hg : st.Good) (hpk : st.parked = some pk) (hq : st.queue = [.msg kind p])
+    (hacc : decs.head?.getD .accept = .accept) (hh : Honoured (st.resumed pk true) kind p) :
+    let r := step decs st (.resolve true)
+    (∃ pre, r.2 = pre ++ birthSequence st.bdSeq st.devs ∧
+      ∀ e ∈ pre, (e.isCmd = true ∨ e.isCb = true) ∧ e.target? = some none) ∧
+    r.2.filter Eff.isBirth = birthSequence st.bdSeq st.devs := by
+  have he := resolve_then_rebirth decs st pk kind p hg hpk hq hacc hh
+  have hbs : birthSequence st.bdSeq st.devs = .nbirth 0 st.bdSeq :: dbirthSeq st.devs := rfl
+  refine ⟨⟨cmdEffs none st.nodeMgr kind p, by rw [he, hbs], cmdEffs_all _ _ _ _⟩, ?_⟩
+  rw [he, List.filter_append, hbs]
+  have h1 : (cmdEffs none st.nodeMgr kind p).filter Eff.isBirth = [] :=
+    List.filter_eq_nil_iff.mpr fun e h => by simp [(cmdEffs_no_birth _ _ _ _ e h).1]
+  have h2 : (Eff.nbirth 0 st.bdSeq :: dbirthSeq st.devs).filter Eff.isBirth
+      = Eff.nbirth 0 st.bdSeq :: dbirthSeq st.devs := by
+    apply List.filter_eq_self.mpr
+    intro e h
+    rcases List.mem_cons.mp h with h | h
+    · subst h; rfl
+    · simp only [dbirthSeq, List.mem_map] at h
+      obtain ⟨q, _, rfl⟩ := h
+      rfl
+  rw [h1, h2]; rfl
+
 /-! ### the hypotheses hold along every history -/
 
 /-- From the initial state, along every history of steps (any stimuli, any client decisions)
@@ -412,5 +442,15 @@ example : drainIter [{ name := some [120], isNull := some true }, { alias := som
 example : (step [] st0 (.dev 2 (.cmd .cmd { ts := some 9, metrics := [{ name := some [120], isNull := some true }] }))).2 =
     [.cmd (some 2) 9 [{ id := .name [120], ts := none, value := none }]] := by decide
 example : (step [] st0 (.dev 7 (.cmd .cmd { ts := some 9, metrics := [] }))).2 = [] := by decide
+/-- new; enable d0; online (NBIRTH parked); NCMD rebirth (queued); resolve accepted:
+one NBIRTH and one DBIRTH -/
+example :
+    let s0 : St := { devs := [{ name := 0 }], wall := 2000000 }
+    let s1 := (step [] s0 (.dev 0 .enable)).1
+    let s2 := (step [.park] s1 (.node (.online true))).1
+    let s3 := (step [] s2 (.node (.msg .cmd { ts := some 1000, metrics := [rb (.bool true)] }))).1
+    (step [] s3 (.resolve true)).2 =
+      [.cmd none 1000 [{ id := .name rebirthName, ts := none, value := some (.bool true) }],
+       .nbirth 0 0, .dbirth 0 1] := by decide
 
 end Srad.Cmd
